@@ -78,7 +78,7 @@ class C19(PropertyCheck):
     source_tables = ["Tile", "Etc1", "Pixel"]   # tables / constants regenerated from /repo's source (gen/srctables.py)
     release_too = True
     rule = ("streams: every 16-bit value of RGBA5551/RGB565/RGBA4/LA8 and every 8-bit value of L8/A8 (model-compared in 32x32 textures, plus one "
-            "256x256 texture per format for the oracle), RGBA8 byte sweeps; all 25 power-of-two sizes 8..128 x 9 formats with random payloads; ETC1 "
+            "256x256 texture per format for the oracle), RGBA8 byte sweeps and boundary values; periodic payloads (byte period 1, 2, 4, 8, 16 with differing pixels inside the period, whole textures and alternating tiles) for every raw format; all 25 power-of-two sizes 8..128 x 9 formats with random payloads; ETC1 "
             "blocks: individual/differential x 64 table pairs x flip x constant selector fills + per-position selector values + random selectors, "
             "every in-range (base, delta) pair, all 4-bit colour pairs, every alpha nibble, boundary alpha words (zero, ones, one nibble set/cleared per position) x varied and boundary colour words; all 65536 RGB5A3 values; CI8 palette images of sizes 1..64 "
             "(sampled in the quick tier, all 4096 in the thorough tier; every one model-compared); small palettes (1, 2, 16, 255 colours) with visible indices in range and cropped-away padding bytes 0xFF / random / = palette size, and the converse (one visible index outside: error); decode_indexed directly; ColorFormat::decode / "
@@ -93,6 +93,7 @@ class C19(PropertyCheck):
         "exactness boundary w*h = 2^24 (stream ctpk-f32-size, independent IEEE emulation in the oracle))",
         "A-alloc: allocations below 2^32 pixels succeed",
         "the 3DS formats are reached through a single-texture CTPK built by the harness, CI8 through a single-image TPL built by the harness",
+        "every input slice is handed to the library at an even and at an odd start address; the two results must coincide (marker ADDRESS-DEPENDENT)",
     ]
 
     # ------------------------------------------------------------------ generation
@@ -136,6 +137,28 @@ class C19(PropertyCheck):
         vals += [rng.getrandbits(32) for _ in range(64 - len(vals))]
         rng.shuffle(vals)
         color(0, 8, 8, tiled_payload(0, 8, 8, vals), "rgba8-byte-sweep")
+
+        # periodic payloads: the source bytes repeat with byte period 1, 2, 4, 8 or 16 while the pixels inside a period differ
+        # (1-pixel stripes, checkerboards, two-colour dithers) - whole textures and textures with only some periodic tiles
+        for fmt in COLOR_FORMATS:
+            bpe = texref.FORMATS[fmt][1]
+            for (w, h) in ((8, 8), (16, 8), (32, 16)):
+                n = texref.payload_size(fmt, w, h)
+                for period in (1, 2, 4, 8, 16):
+                    while True:
+                        unit = rand_bytes(rng, period)
+                        els = [unit[i:i + bpe] for i in range(0, period, bpe)] if period >= 2 * bpe else None
+                        if els is None or len(set(els)) > 1:
+                            break
+                    payload = (unit * (n // period + 1))[:n]
+                    color(fmt, w, h, payload, "periodic-payloads")
+                    if w * h > 64:
+                        # mixed: random texture in which every other tile is periodic
+                        tile = 64 * bpe
+                        mixed = bytearray(rand_bytes(rng, n))
+                        for t in range(0, n // tile, 2):
+                            mixed[t * tile:(t + 1) * tile] = (unit * (tile // period + 1))[:tile]
+                        color(fmt, w, h, bytes(mixed), "periodic-payloads")
 
         # 2. all 25 sizes x all listed formats, random payloads
         reps = 1 if not thorough else 8
